@@ -32,8 +32,8 @@ pub struct Cfg {
     pub auto_rotate: bool,
     /// size limit of a blob file (None = practically unlimited); with `auto_rotate` the worker rotates on it
     pub max_blob_size: Option<u64>,
-    /// every `Restart` re-opens the directory under another bloom configuration (1 -> 3 -> 1 ... with an
-    /// occasional 0): closed blobs written under different configurations then share filter groups
+    /// every `Restart` re-opens the directory under another bloom configuration (1 -> 4 -> 3 -> 1 ...: other bit count, other hasher count, with an
+    /// occasional 0 = no bloom): closed blobs written under different configurations then share filter groups
     pub bloom_flip: bool,
 }
 
@@ -73,6 +73,22 @@ impl Cfg {
 /// same bit count as `small_bloom`, three hash functions
 pub fn small_bloom_3() -> BloomConfig {
     BloomConfig { hashers_count: 3, ..small_bloom() }
+}
+
+/// two hash functions like `small_bloom`, another bit count
+pub fn small_bloom_narrow() -> BloomConfig {
+    BloomConfig { max_buf_bits_count: 333, ..small_bloom() }
+}
+
+/// the bloom configuration a directory is re-opened with after a restart when `bloom_flip` is on
+pub fn next_bloom_cfg(cur: u8, restarts: u64) -> u8 {
+    match cur {
+        1 => 4,
+        4 => 3,
+        3 if restarts % 3 == 0 => 0,
+        3 => 1,
+        _ => 1,
+    }
 }
 
 pub fn small_bloom() -> BloomConfig {
@@ -287,6 +303,7 @@ pub fn builder_for(cfg: &Cfg, dir: &Path) -> Builder {
         1 => b = b.set_filter_config(small_bloom()),
         2 => b = b.set_filter_config(BloomConfig::default()),
         3 => b = b.set_filter_config(small_bloom_3()),
+        4 => b = b.set_filter_config(small_bloom_narrow()),
         _ => {}
     }
     if let Some(d) = cfg.max_dirty {
@@ -550,11 +567,7 @@ impl<const N: usize> Driver<N> {
                 self.model.restart(*lazy);
                 self.stats.restarts += 1;
                 if self.cfg.bloom_flip {
-                    self.cfg.bloom = match self.cfg.bloom {
-                        1 => 3,
-                        3 if self.stats.restarts % 3 == 0 => 0,
-                        _ => 1,
-                    };
+                    self.cfg.bloom = next_bloom_cfg(self.cfg.bloom, self.stats.restarts);
                     self.stats.bloom_flips += 1;
                 }
                 self.offloaded = false;
